@@ -155,6 +155,9 @@ func checkC09(c *Ctx) {
 	}
 	c09Deferral(c, fcv, cv)
 
+	// C09.4 the vote table is accessed only under its mutex (verification may run concurrently)
+	c.checkGuard("C09.4", guards["VotingMachine"])
+
 	// C09.7 Kauri
 	c09Kauri(c)
 
